@@ -6,7 +6,8 @@ class C01(Prop):
     rule = ("cases: random programs for 2-5 threads, random bursty schedule then round-robin; suites: raw AtomicMove ring, raw FullSyncMove ring "
             "(publish/consume/length), movable atomic and movable full-sync Uni channels (send/send_with/poll/executor-driven streams/cancel_all/length, "
             "N in {2,4,8}, MAX_STREAMS in {1,2}, 1..MAX_STREAMS streams); non-trivial = a context switch inside another thread's operation AND a full/empty/pending answer; distinct by sha1")
-    trusted_base = ["the crossbeam and the two zero-copy Uni channels have no lock-step model yet: they run the same generated programs and schedules through the same scheduler and are judged by the exactly-once oracle only (their ring / pool components are in lock-step under C13 / C18)"]
+    trusted_base = ["the crossbeam and the two zero-copy Uni channels run in lock-step with their own machines (ChanXb.v, ChanZ.v / ChanZX.v); crossbeam's own queue is a library without hooks (one step per call - trusted)",
+                    "payload accesses (a setter's write, the stream's read) are not scheduling points: they are exercised free-running by the `uni_stress_dawdling_setter` suite and judged by the oracle only"]
     assumptions = ["payload type u32 (no destructor)", "threads are OS threads serialised by the baton scheduler: one shared access per grant"]
     def suites(self, tier, rng):
         n = 150 if tier == "quick" else 2500
@@ -16,14 +17,19 @@ class C01(Prop):
                 Suite("uni_move_full_sync", unigen.HEADER, [unigen.gen_case(rng, "move_full_sync") for _ in range(n)]),
                 Suite("uni_move_atomic_entry_points", unigen.XHEADER, [unigen.gen_entry_case(rng, "move_atomic") for _ in range(n)]),
                 Suite("uni_move_full_sync_async", unigen.HEADER, [unigen.gen_entry_case(rng, "move_full_sync") for _ in range(n // 3)])
-                ] + unigen.oracle_only_suites(rng, n // 3)
+                ] + unigen.oracle_only_suites(rng, n // 3) + [
+                # payload accesses (the setter's write into the lent slot, the stream's read) are not scheduling points of the lock-step runs:
+                # free-running producers whose setters dawdle before writing, one busy-polling consumer, all five kinds (oracle only)
+                Suite("uni_stress_dawdling_setter", "", [unigen.gen_unistress(rng, chan) for chan in unigen.UNI_KINDS for _ in range(max(3, n // 50))], compare=False)]
     def oracle(self, case, recs):
+        if case.meta.get("profile") == "unistress": return unigen.oracle_unistress(case, recs)
         if "chan" in case.meta: return unigen.uni_oracle_exactly_once(case, recs)
         return ringgen.oracle_exactly_once(case, recs)
     def nontrivial(self, case, recs):
+        if case.meta.get("profile") == "unistress": return case.meta["P"] >= 2
         if "chan" in case.meta: return unigen.uni_nontrivial(case, recs)
         return ringgen.nontrivial_window(case, recs)
     def parse_replay(self, text):
         lines = [l for l in text.splitlines() if l.strip() and not l.startswith("#")]
-        cases = [unigen.parse_case_line(l) if l.startswith("uni ") else ringgen.parse_case_line(l) for l in lines]
+        cases = [unigen.parse_unistress_line(l) if l.startswith("unistress ") else unigen.parse_case_line(l) if l.startswith("uni ") else ringgen.parse_case_line(l) for l in lines]
         return Suite("replay", unigen.XHEADER + "\n" + ringgen.HEADER, cases)
